@@ -32,6 +32,7 @@ type SolverStats struct {
 	Unknown int
 	Errors  int
 	Time    time.Duration
+	Hist    [5]int // <5ms, <20ms, <100ms, <1s, >=1s
 }
 
 type Solver struct {
@@ -51,6 +52,7 @@ type Solver struct {
 	nmark   int
 	lastErr string
 	lastExtra *Term
+	killed    bool
 }
 
 func solverArgs(kind string, timeoutMs int) (string, []string) {
@@ -227,6 +229,12 @@ func (s *Solver) readAnswer() SatResult {
 	s.send("(echo \"" + mark + "\")")
 	res := Unknown
 	got := false
+	// watchdog: a solver that ignores its own timeout is killed (answer: unknown)
+	wd := time.AfterFunc(time.Duration(s.timeout)*time.Millisecond+10*time.Second, func() {
+		s.killed = true
+		s.cmd.Process.Kill()
+	})
+	defer wd.Stop()
 	for {
 		line, err := s.readLine()
 		if err != nil {
@@ -301,7 +309,20 @@ func (s *Solver) account(r SatResult, start time.Time) {
 		}
 	}
 	s.stats.Queries++
-	s.stats.Time += time.Since(start)
+	d := time.Since(start)
+	s.stats.Time += d
+	switch {
+	case d < 5*time.Millisecond:
+		s.stats.Hist[0]++
+	case d < 20*time.Millisecond:
+		s.stats.Hist[1]++
+	case d < 100*time.Millisecond:
+		s.stats.Hist[2]++
+	case d < time.Second:
+		s.stats.Hist[3]++
+	default:
+		s.stats.Hist[4]++
+	}
 	switch r {
 	case Sat:
 		s.stats.Sat++
@@ -347,7 +368,12 @@ func (s *Solver) Model(pc []*Term, extra *Term, syms []*Term) (SatResult, map[st
 			sb.WriteString("))")
 			s.send(sb.String())
 			txt := s.readSexp()
-			parseValues(txt, model)
+			vals := parseValueList(txt)
+			for k, y := range syms[i:j] {
+				if k < len(vals) {
+					model[y.ref()] = vals[k]
+				}
+			}
 		}
 	}
 	s.pop(1)
@@ -381,41 +407,61 @@ func (s *Solver) readSexp() string {
 	}
 }
 
-// parseValues parses "((name value) (name value) ...)".
-func parseValues(txt string, out map[string]uint64) {
+// parseValues parses "((term value) (term value) ...)" positionally: z3 prints
+// define-fun names expanded, so only the order identifies the entries.
+func parseValueList(txt string) []uint64 {
 	toks := tokenize(txt)
-	// expect ( ( name val ) ... )
-	i := 0
-	for i < len(toks) {
-		if toks[i] == "(" && i+3 < len(toks) && toks[i+1] != "(" {
-			name := toks[i+1]
-			val := toks[i+2]
-			if val == "(" {
-				// (_ bv123 64)
-				if i+5 < len(toks) && toks[i+3] == "_" && strings.HasPrefix(toks[i+4], "bv") {
-					v, _ := strconv.ParseUint(toks[i+4][2:], 10, 64)
-					out[name] = v
-				}
-				i += 3
-				continue
+	var vals []uint64
+	depth := 0
+	var last []string // tokens of the current top-level pair at depth 2
+	for _, t := range toks {
+		switch t {
+		case "(":
+			depth++
+			if depth == 2 {
+				last = last[:0]
+			} else if depth > 2 {
+				last = append(last, t)
 			}
-			switch {
-			case val == "true":
-				out[name] = 1
-			case val == "false":
-				out[name] = 0
-			case strings.HasPrefix(val, "#x"):
-				v, _ := strconv.ParseUint(val[2:], 16, 64)
-				out[name] = v
-			case strings.HasPrefix(val, "#b"):
-				v, _ := strconv.ParseUint(val[2:], 2, 64)
-				out[name] = v
+		case ")":
+			if depth == 2 {
+				vals = append(vals, valueOfTail(last))
+			} else if depth > 2 {
+				last = append(last, t)
 			}
-			i += 3
-			continue
+			depth--
+		default:
+			if depth >= 2 {
+				last = append(last, t)
+			}
 		}
-		i++
 	}
+	return vals
+}
+
+// valueOfTail reads the value at the end of a (term value) pair's token list.
+func valueOfTail(toks []string) uint64 {
+	n := len(toks)
+	if n == 0 {
+		return 0
+	}
+	v := toks[n-1]
+	switch {
+	case v == "true":
+		return 1
+	case v == "false":
+		return 0
+	case strings.HasPrefix(v, "#x"):
+		r, _ := strconv.ParseUint(v[2:], 16, 64)
+		return r
+	case strings.HasPrefix(v, "#b"):
+		r, _ := strconv.ParseUint(v[2:], 2, 64)
+		return r
+	case v == ")" && n >= 5 && toks[n-4] == "_" && strings.HasPrefix(toks[n-3], "bv"):
+		r, _ := strconv.ParseUint(toks[n-3][2:], 10, 64)
+		return r
+	}
+	return 0
 }
 
 func tokenize(s string) []string {
